@@ -260,3 +260,18 @@ PROPS["C12"] = dict(
         R("C12.close_ssh", "swarms", "TestC12CloseSSH", 12, 400, shrink=10, quick=dict(checks=12, shards=2, timeout=600)),
     ],
 )
+
+PROPS["C13"] = dict(
+    level="exploration",
+    technique="property-based testing (rapid): generated concurrent programs on the tell hub, ask hub, bounded queue and real swarms, executed on real goroutines under several GOMAXPROCS; timestamped history checked against the rendezvous specification",
+    level_text="Generated programs of receivers, producers, cancels and closes run against the real hubs and queue; the logged history (call/return/callback events) is checked against invariants of the rendezvous specification (exactly-one receiver, success iff a callback finished, prompt cancellation, conservation of messages). Holds on everything generated; interleavings are sampled, not enumerated.",
+    level_note="The schedule is the Go scheduler's (varied through GOMAXPROCS, start offsets and callback work), not owned by the harness: a violation that needs one specific interleaving can be missed. Asks are required to be prompt only before the hub's commit point.",
+    design_ref="4/C13",
+    assumptions=["cancellation promptness threshold 500 ms", "after the commit point a deliverer waits for the callback regardless of its own context (the statement's rule)"],
+    subs=[
+        R("C13.tellhub_histories", "hubs", "TestC13TellHub", 600, 60000),
+        R("C13.askhub_histories", "hubs", "TestC13AskHub", 600, 60000),
+        R("C13.queue_histories", "hubs", "TestC13Queue", 400, 40000),
+        R("C13.swarm_cancel", "hubs", "TestC13SwarmCancel", 120, 6000, quick=dict(checks=120, shards=4, timeout=600)),
+    ],
+)
